@@ -154,22 +154,26 @@ func (c14) Gen(r *Rand, sc *Scenario, tier string) {
 			// the caller overwrites its read buffer with a different message of the same length and
 			// calls again: same address, same length, different bytes
 			b := sc.Docs[op.Doc].Bytes()
-			for k := 0; k < 8; k++ {
-				i := r.Intn(len(b))
-				switch b[i] {
-				case ',', ':':
-					b[i] = ' '
-				case '"':
-					b[i] = 'q'
-				case ' ':
-					b[i] = ','
-				default:
-					if k < 7 {
-						continue
+			if nb, ok := swapSiblingsDoc(r, b); ok && r.Chance(1, 2) {
+				b = nb
+			} else {
+				for k := 0; k < 8; k++ {
+					i := r.Intn(len(b))
+					switch b[i] {
+					case ',', ':':
+						b[i] = ' '
+					case '"':
+						b[i] = 'q'
+					case ' ':
+						b[i] = ','
+					default:
+						if k < 7 {
+							continue
+						}
+						b[i] = mutBytes[r.Intn(len(mutBytes))]
 					}
-					b[i] = mutBytes[r.Intn(len(mutBytes))]
+					break
 				}
-				break
 			}
 			sc.Docs = append(sc.Docs, docOf(b, sc.Docs[op.Doc].Class+"-samelen"))
 			ops[len(ops)-1].B |= 2
